@@ -238,9 +238,11 @@ pub fn gen_fx_kind(src: &mut Src, ctx: &mut Ctx, d: Domain, sample_rate: u32, de
 				1 => src.f64_log(10.0, sr / 2.0),
 				_ => src.f64_uniform(0.0, sr),
 			},
-			gain_db: match src.weighted(&[2, 5]) {
-				0 => src.pick(&[0.0f32, 6.0, -6.0, 24.0, -24.0]),
-				_ => src.f32_in(-30.0, 30.0),
+			// (any Decibels value is accepted; -60 dB is the type's "silence" edge)
+			gain_db: match src.weighted(&[2, 5, 1]) {
+				0 => src.pick(&[0.0f32, 6.0, -6.0, 24.0, -24.0, -60.0]),
+				1 => src.f32_in(-30.0, 30.0),
+				_ => src.f32_in(-90.0, 40.0),
 			},
 			q: match src.weighted(&[2, 5, 1]) {
 				0 => src.pick(&[1.0, 0.7071, 0.01, 10.0]),
